@@ -1,7 +1,7 @@
 #!/bin/bash
 # Development aid: run every thorough check in sequence (for vp run).
 cd "$(dirname "$0")"
-for id in C01 C02 C03 C04 C06 C07 C08 C09 C10 C11 C12 C13 C16 C17 C18 C14 C15 C05; do
+for id in ${@:-C01 C02 C03 C04 C06 C07 C08 C09 C10 C11 C12 C16 C17 C18 C13 C14 C15 C05}; do
   start=$(date +%s)
   if [ "$id" = C05 ] || [ "$id" = C14 ] || [ "$id" = C15 ]; then
     out=$(VERIF_FINDINGS_CANDIDATES=/tmp/thorough_cand_$id.jsonl ./run check $id --tier thorough 2>&1); code=$?
